@@ -234,6 +234,11 @@ def gen_tasks(tier, seed):
                 v, w = rng.choice(inner_c), rng.choice(inner_c)
                 tasks.append({**base, "node_flow": nf, "starts": [v], "ends": [], "kwargs": {**kw, "additional_starts": [v]}})
                 tasks.append({**base, "node_flow": nf, "starts": [], "ends": [w], "kwargs": {**kw, "additional_ends": [w]}})
+            if inner_c and cls in ("MinFlowDecompCycles", "kFlowDecompCycles"):
+                # additional starts / ends are optional for the walks: the flow (built from plain s-t walks) stays decomposable
+                v, w = inner_c[0], inner_c[-1]
+                for st, en in (([v], []), ([], [w]), ([v], [w])):
+                    tasks.append({**base, "node_flow": nf, "starts": st, "ends": en, "kwargs": {**kw, "additional_starts": st, "additional_ends": en}})
             if inner_c and cls == "MinPathCoverCycles":
                 w = rng.choice(inner_c)
                 tasks.append({**base, "node_flow": nf, "starts": [], "ends": [w], "kwargs": {**kw, "additional_ends": [w]}})
